@@ -191,6 +191,39 @@ Fixpoint fills_walk (k : option nat) (items : list item) (seen : hist) (inflight
     end
   end.
 
+(* C04, "while it waits for the parser it lets the other side make progress": the harness applies a stimulus only
+   when the stream has returned Pending (the runner is quiescent). At such a point, with NO attempt in flight and the
+   run not tripped, nothing that has been ingested may still be waiting to be started (retries waiting for their
+   delay aside): scenarios already handed over must not sit idle until the parser delivers its next item. *)
+Fixpoint idle_walk (items : list item) (seen : hist) (inflight : list N) (started : list N) (retrying : list N)
+                   (tripped : bool) (ff : bool) (h : hist) : bool :=
+  match h with
+  | [] => true
+  | (r, tm) :: t =>
+    let seen' := seen ++ [(r, tm)] in
+    match r with
+    | HEv (EvScen _ _ s _ ScStarted) =>
+      idle_walk items seen' (s :: inflight) (s :: started) (filter (fun x => negb (x =? s)) retrying) tripped ff t
+    | HEv (EvScen _ _ s rt ScFinished) =>
+      let evs := flat_map (fun x => match x with EvScen _ _ s' rt' e => if (s' =? s) && retr_eqb rt rt' then [e] else [] | _ => [] end)
+                          (events_of seen') in
+      let again := attempt_failed evs && match rt with Some (_, l) => negb (l =? 0) | None => false end
+                   && retries_at_once items s in
+      idle_walk items seen' (filter (fun x => negb (x =? s)) inflight) started
+                (if again then s :: retrying else retrying)
+                (tripped || (ff && is_final_failure evs rt)) ff t
+    | HStimP | HStimG _ | HStimT _ =>
+      (if is_nil inflight && negb tripped then
+         is_nil (filter (fun sc => negb (memN (ss_id sc) started) || memN (ss_id sc) retrying)
+                        (flat_map sf_scens (ingested items seen')))
+       else true)
+      && idle_walk items seen' inflight started retrying tripped ff t
+    | _ => idle_walk items seen' inflight started retrying tripped ff t
+    end
+  end.
+Definition c04_progress_ok (ff : bool) (items : list item) (h : hist) : bool :=
+  idle_walk items [] [] [] [] false ff h.
+
 (* "after each completion": the harness applies a stimulus only when the stream has returned Pending, i.e. when
    the runner is quiescent. By then every attempt that has emitted Finished has been followed by a loop turn
    (which refills its slot) — a completion the loop does not notice leaves its slot empty. *)
